@@ -72,6 +72,7 @@ func main() {
 		})
 	}
 	extra := map[string]interface{}{"crash_answers_by_site": known, "skipped_huge_pk_count": c05frame.Skipped,
+		"alloc_rows_max_ratio_permille": c05frame.AllocStats, "alloc_rows_skipped_zero_columns": c05frame.AllocSkippedZeroCols,
 		"subprocess_notes": c05disp.Notes}
 	for k, v := range c05val.Stats() {
 		extra["val_"+k] = v
